@@ -123,3 +123,12 @@ Theorem C05_vchain_multi_placed : forall (j nt : nat), (1 <= nt)%nat -> (1 <= j 
   = Psi (if MultiTarget.pmf j f p b then flips (map f (targets j nt)) b else b).
 Proof. exact MultiTarget.vchain_multi_placed. Qed.
 Print Assumptions C05_vchain_multi_placed.
+
+(* McxVchainDirty, action_only on its own (every k >= 1, every pattern): the exact gate is the action_only gate followed by an
+   invertible circuit R on the controls and the borrowed ancillas only - R never touches the target, so the two variants act
+   alike on the target and differ only in what they leave on the borrowed qubits, which the caller's inverse chain undoes. *)
+Theorem C05_vchain_action_only : forall k p, (1 <= k)%nat ->
+  exists R : list sgate, (forall g q, In g R -> In q (sq g) -> (q < McxAll.tpos k)%nat) /\ Forall swf R /\
+  forall psi, srun (vchain k 1 p false false) psi = srun R (srun (vchain k 1 p false true) psi).
+Proof. exact MultiTarget.vchain_action_only_split. Qed.
+Print Assumptions C05_vchain_action_only.
